@@ -64,8 +64,7 @@ PertForward(cfg, st) ==
   IN FwdWaves(cfg, st1, heads)
 
 \* one backward relaxation along edge e = <<prv, out, kind>> (out is being visited).
-\* Stale: TRUE models the pinned code, which keeps lft/lst stored by earlier calls
-\* unless the new lft is not larger (pre_lft >= lft); see DESIGN D4.
+\* The stored lft is overwritten when unset (< 0) or not smaller than the new one.
 BwdEdge(cfg, st, e) ==
   LET prv == e[1]  out == e[2]  k == e[3]
       lftFS == st.lst[out]
@@ -91,10 +90,12 @@ BwdWaves(cfg, st, S) ==
 PertBackward(cfg, st) ==
   LET tails == { t \in Tasks(cfg) : Len(OutEdges(cfg, t)) = 0 }
       cpl == Max({ st.eft[t] : t \in tails })
+      \* lst/lft are reset to the unset marker -1.0 first (fix of D4: the pinned code kept
+      \* the values stored by earlier calls)
       st1 == [st EXCEPT !.cpl = cpl,
-                        !.lft = [t \in Tasks(cfg) |-> IF t \in tails THEN cpl ELSE st.lft[t]],
+                        !.lft = [t \in Tasks(cfg) |-> IF t \in tails THEN cpl ELSE 0 - cfg.Q],
                         !.lst = [t \in Tasks(cfg) |->
-                                   IF t \in tails THEN cpl - st.rem[t] ELSE st.lst[t]]]
+                                   IF t \in tails THEN cpl - st.rem[t] ELSE 0 - cfg.Q]]
   IN BwdWaves(cfg, st1, tails)
 
 \* update_PERT_data(time)
